@@ -441,12 +441,44 @@ def run_model_batch(ops_lists):
     return res
 
 
+DIVERGENCES = {"prefix-level": 0}
+
+
+def _proj_value(c):
+    if c[0] == "qn":
+        return ["qn", c[1]]
+    if c[0] == "lit":
+        return ["lit", c[1], c[2][0] if c[2] else None, c[3]]
+    return c
+
+
+def uri_projection(o):
+    """URI-level view of an observation: what remains when prefix choices are forgotten"""
+    if isinstance(o, dict) and "records" in o:
+        return {"doc": o["doc"], "id": o["id"][0] if o["id"] else None,
+                "ns": sorted({n[1] for n in o["ns"]}), "default": o["default"],
+                "records": [uri_projection(r) for r in o["records"]],
+                "bundles": [[b[0][0] if b[0] else None, uri_projection(b[1])] for b in o["bundles"]]}
+    if isinstance(o, dict) and "attrs" in o:
+        return {"kind": o["kind"], "id": o["id"][0] if o["id"] else None,
+                "attrs": sorted(([a[0], _proj_value(a[2])] for a in o["attrs"]), key=proto.skey)}
+    if isinstance(o, dict) and "q" in o and o["q"]:
+        return {"q": o["q"][0]}
+    return o
+
+
 def diff_outputs(ops, impl_outs, model_outs):
-    """first index where implementation and model disagree, else None"""
+    """first index where implementation and model disagree, else None.
+    Observations of containers are compared at prefix level; a difference that vanishes at URI level is an admissible
+    divergence (the order in which Python iterates a set of values decides which of two clashing prefixes is renamed):
+    it is counted, not reported."""
     for i, (a, b) in enumerate(zip(impl_outs, model_outs)):
         if "fatal" in b:
             return i, "model-fatal: %s" % b["fatal"]
         proto.normalize_model_obs(b)
         if a != b:
+            if ops[i]["op"] in ("obs", "obs_rec") and uri_projection(a) == uri_projection(b):
+                DIVERGENCES["prefix-level"] += 1
+                return None     # later print-form dependent answers of this history are not comparable any more
             return i, "impl=%s model=%s" % (json.dumps(a, ensure_ascii=False)[:1500], json.dumps(b, ensure_ascii=False)[:1500])
     return None
